@@ -410,5 +410,9 @@ func matchKnown(c Case, res result, err error) string {
 			}
 		}
 	}
+	// names kept: a block after if(..){..jump}else{..jump} is dissolved into the enclosing scope with its let/const/class
+	if strings.HasPrefix(err.Error(), "KeepVarNames text is rejected by V8 (Identifier") && strings.Contains(err.Error(), "has already been declared") && strings.Contains(c.Src, "else") {
+		return "C02-else-unscope-keepnames"
+	}
 	return ""
 }
